@@ -382,8 +382,8 @@ def _group_case(rng, enc):
         ms = [(U(o), rng.choice([("n", rng.randrange(0, 30)), ("s", U(rng.choice(["u", "v&", "w"]))), ("i", -rng.randrange(1, 9))])) for o in others if rng.random() < 0.85]
         if rng.random() < 0.3:
             ms.append((U(rng.choice(["zz", "e1", "e2"])), ("n", rng.randrange(0, 9))))
-        if rng.random() < 0.15:
-            ms.append((U("rm"), ("u",)))          # a removed member
+        # (no undefined members here: the doc code's `u` member is a LIVE member without a value, for which GroupBy
+        # answers false by design - pinned by Tests/ValueTest.hpp, modelled in Model/Group.lean - not a removed one)
         rng.shuffle(ms)
         pos = rng.randrange(0, len(ms) + 1)       # the grouping member at ANY position
         ms.insert(pos, (U(gk), rng.choice(gvals)))
